@@ -18,7 +18,12 @@ through the real RemoteStateActor::select_path (actor without connections) to ch
                                         not_a_live_path / switch_without_5ms_gain / selects_with_no_stats)
   select_path result # Apply(cur, output) -> VIOLATION (glue)
 
-Mutation self-test: see the end of this docstring (filled in after the run).
+Self-tests run on 2026-09-22 (private snapshot copy of /repo, patches in seeded/remote/):
+  * RTT_SWITCHING_MIN = 4 ms -> VIOLATION sig {kind: selection_outside_property, clause: switch_without_5ms_gain}
+    (first hit: candidates v4a 15000001 ns, v4b 20000000 ns, current v4b -> v4a);
+  * `best + MIN < current` instead of `<=` (DESIGN §12) -> no clause of the statement is broken ("only to a path at
+    least 5 ms better" still holds), reported as NONCONFORMANCE, exit 2, 314 deviating cases;
+  * reverted -> exit 0.
 """
 import json
 
